@@ -105,6 +105,57 @@ fn main() {
             );
             exit(if rep.violations.is_empty() { 0 } else { 1 });
         }
+        "stats" => {
+            // simx stats <PROP> : histogram of command results over the default schedule of every scenario
+            // (vacuity audit: do the families really produce the situations they are meant to produce?).
+            let fams = families(&args[2], "quick").unwrap();
+            for fam in &fams {
+                let mut hist: std::collections::BTreeMap<String, u64> = Default::default();
+                let mut events: std::collections::BTreeMap<&'static str, u64> = Default::default();
+                for sc in &fam.scenarios {
+                    let (sc2, controlled);
+                    let scr = match fam.uncontrolled {
+                        Some((threads, _)) => {
+                            let mut spec2 = (*sc.spec).clone();
+                            spec2.threads = threads;
+                            sc2 = world::Scenario { spec: std::sync::Arc::new(spec2), cmds: sc.cmds.clone(), label: sc.label.clone(), prelude: sc.prelude.clone() };
+                            controlled = false;
+                            &sc2
+                        }
+                        None => {
+                            controlled = true;
+                            sc
+                        }
+                    };
+                    let out = world::run_once(scr, &[], controlled);
+                    for r in &out.results {
+                        let k = match r {
+                            world::Res::Err(e) => format!("Err({})", e.kind()),
+                            world::Res::SchedErr(e) => format!("SchedErr({:?})", e),
+                            world::Res::Panicked(_) => "Panicked".to_string(),
+                            world::Res::Replies(v) => format!("Replies(n={})", v.len()),
+                            other => format!("{:?}", other),
+                        };
+                        *hist.entry(k).or_insert(0) += 1;
+                    }
+                    for e in &out.log {
+                        let k = match e {
+                            world::Ev::HS { .. } => "handler",
+                            world::Ev::Sync(_) => "sync",
+                            world::Ev::Cancel { .. } => "cancel",
+                            world::Ev::Fault { .. } => "fault",
+                            world::Ev::Blocked(_) => "blocked",
+                            world::Ev::QryE { .. } => "query_done",
+                            world::Ev::Connect { .. } => "connect",
+                            _ => continue,
+                        };
+                        *events.entry(k).or_insert(0) += 1;
+                    }
+                }
+                println!("{} ({} scenarios)\n   results {:?}\n   events {:?}", fam.name, fam.scenarios.len(), hist, events);
+            }
+            exit(0);
+        }
         "debug" => {
             // simx debug <PROP> <family> <label> : explore one scenario, print outcome statistics and one log.
             let fams = families(&args[2], "quick").unwrap();
